@@ -33,7 +33,8 @@ ASSUMPTIONS = ["dt >= dt_min (the user-chosen first trial is not a controller pr
                "logical termination bound 3*(T/dt_min)+100 trials; the wall-clock watchdog only yields 'inconclusive'"]
 REQUIRED_COUNTERS = ["trials", "rejected", "accepted", "dt_min_clamped_trials", "injected_cases", "natural_cases",
                      "error_recomputed", "interpolated_outputs", "float32_cases", "clipped_final_trials", "grad_enabled_runs",
-                     "extra_state_solver_runs"]
+                     "extra_state_solver_runs", "adjoint_entry_runs", "backward_adaptive_solves", "backward_trials",
+                     "backward_rejected"]
 THRESHOLDS = {"error_recompute_rel": 1e-12}
 
 SOLVERS = [("ito", "euler", "additive"), ("ito", "milstein", "diagonal"), ("ito", "srk", "diagonal"),
@@ -101,110 +102,32 @@ def _ref_error(y_full, y_half, rtol, atol, eps=1e-7):
     return float(torch.sqrt((r ** 2).sum() / r.numel()).clamp_min(eps))
 
 
-def run_case(case):
-    import torchsde
-    import warnings
-    rng = random.Random(case["rseed"])
-    viol, cnt, mx = [], {}, {}
-    st, method, nt = rng.choice(SOLVERS)
-    dtype = torch.float32 if rng.random() < 0.2 else torch.float64
-    d, B = rng.choice([1, 2, 3]), rng.choice([1, 2, 4])
-    t0 = rng.choice([0.0, 0.0, -1.0, 2.0])
-    injected = case["kind"] == "injected"
-    if injected:
-        T = rng.choice([0.5, 1.0])
-        k = rng.choice([1.0, 5.0])
-        dt_min = T / rng.choice([40, 150, 400])
-        dt = rng.choice([dt_min, 0.05, 0.2, T])
-        dt = max(dt, dt_min)
-        rtol = atol = 1e-3
-        script_name = rng.choice(["always_reject", "alternate", "heavy_tail", "tiny", "borderline", "reject_bursts"])
-        script = _script(script_name, rng)
-    else:
-        T = rng.choice([0.3, 1.0, 2.0])
-        k = rng.choice([1.0, 10.0, 100.0, 1000.0, 5000.0])
-        dt_min = max(rng.choice([1e-5, 1e-4, 1e-3]), T / 2000)  # bounds the run at ~6000 trials
-        k = min(k, 0.5 / dt_min)  # explicit steps at dt_min stay stable
-        if dtype == torch.float32:
-            dt_min = max(dt_min, 1e-3)
-            k = min(k, 300.0)
-        dt = rng.choice([0.01, 0.1, 0.5])
-        rtol = rng.choice([1e-2, 1e-3, 1e-5, 1e-8])
-        atol = rng.choice([1e-2, 1e-4, 1e-6, 1e-8])
-        if dtype == torch.float32:
-            rtol, atol = max(rtol, 1e-4), max(atol, 1e-5)
-        if dt_min < 1e-4:  # keep the run short: looser tolerances with the tiniest dt_min
-            rtol, atol = max(rtol, 1e-4), max(atol, 1e-5)
-        script_name, script = "natural", None
-    sigma = rng.choice([0.1, 0.5])
-    sde = Stiff(nt, st, d, k, sigma)
-    nout = rng.choice([2, 3, 6])
-    tsl = [t0] + sorted(t0 + T * rng.uniform(0.05, 0.95) for _ in range(nout - 2)) + [t0 + T]
-    ts = torch.tensor(tsl, dtype=dtype)
-    y0 = torch.randn(B, d, dtype=dtype, generator=torch.Generator().manual_seed(case["rseed"]))
-    bm = torchsde.BrownianInterval(t0=float(ts[0]), t1=float(ts[-1]), size=(B, sde.m), dtype=dtype,
-                                   entropy=rng.randrange(1, 10 ** 9), levy_area_approximation=zoo.levy_for(method))
-    rec = probes.RecordingBrownian(bm)
-    pr = probes.SolverProbe(keep_states=True, error_script=script)
-    ctx = (f"{st}/{method}/{nt} k={k} dt={dt} dt_min={dt_min} rtol={rtol} atol={atol} dtype={dtype} ts={tsl} "
-           f"schedule={script_name}")
-    bound = int(3 * (T / dt_min) + 100)
-    limit = {"n": 0}
-    orig_script = pr.error_script
+def _same(x, y):
+    """the same value (an implementation is free to copy): identical object or equal tensors / tuples of tensors"""
+    if x is y:
+        return True
+    if torch.is_tensor(x) and torch.is_tensor(y):
+        return x.shape == y.shape and torch.equal(x, y)
+    if isinstance(x, (tuple, list)) and isinstance(y, (tuple, list)):
+        return len(x) == len(y) and all(_same(p, q) for p, q in zip(x, y))
+    return False
 
-    def counting(i, real):
-        limit["n"] = i + 1
-        if i + 1 > bound:
-            raise probes.OpBudgetExceeded(f"more than {bound} trials")
-        return real if orig_script is None else orig_script(i, real)
-    pr.error_script = counting
-    blown = False
-    # grad mode: long runs are made under no_grad (with autograd enabled the solvers that differentiate the diffusion
-    # keep a graph through all steps, which makes thousands of steps quadratically slow - not what is monitored here)
-    use_grad = injected and dt_min >= T / 150 and rng.random() < 0.5
-    cnt["grad_enabled_runs"] = int(use_grad)
-    try:
-        with warnings.catch_warnings(record=True) as wlist, pr.installed(), torch.set_grad_enabled(use_grad):
-            warnings.simplefilter("always")
-            ys = torchsde.sdeint(sde, y0, ts, bm=rec, method=method, dt=dt, adaptive=True, rtol=rtol, atol=atol,
-                                 dt_min=dt_min)
-    except probes.OpBudgetExceeded as e:
-        viol.append({"mechanism": "adaptive_does_not_terminate", "detail": f"{e} {ctx}"})
-        return {"violations": viol, "counters": {"trials": limit["n"]}}
-    except AssertionError as e:
-        if "nans in the error estimate" in str(e):
-            blown = True  # unstable explicit step: outside the property
-        else:
-            raise
-    if blown:
-        return {"violations": [], "counters": {"blown_up_runs": 1}, "nontrivial": False}
 
-    steps, errors, updates = pr.steps, pr.errors, pr.updates
+def check_trace(steps, errors, updates, t_start, t_end, dt, dt_min, rtol, atol, dtype, ctx, viol, cnt, mx, scale):
+    """Reference model of the controller's contract against the trace of ONE solver.integrate call over
+    [t_start, t_end] (see the module docstring). Returns the accepted steps [(t0, t1, y0, y1)] or None."""
+    same = _same
     ntr = len(errors)
-    cnt["trials"] = ntr
+    cnt["trials"] = cnt.get("trials", 0) + ntr
     if len(steps) != 3 * ntr or len(updates) != ntr:
         viol.append({"mechanism": "trial_not_full_plus_two_halves",
                      "detail": f"{len(steps)} steps, {ntr} error estimates, {len(updates)} updates {ctx}"})
-        return {"violations": viol, "counters": cnt}
-    # (observation, not a verdict: the property does not prescribe the autograd mode of the controller)
-    cnt["error_control_calls_with_grad_enabled"] = pr.grad_enabled_in_error
-
-    def same(x, y):
-        """the same value (an implementation is free to copy): identical object or equal tensors / tuples of tensors"""
-        if x is y:
-            return True
-        if torch.is_tensor(x) and torch.is_tensor(y):
-            return x.shape == y.shape and torch.equal(x, y)
-        if isinstance(x, (tuple, list)) and isinstance(y, (tuple, list)):
-            return len(x) == len(y) and all(same(p, q) for p, q in zip(x, y))
-        return False
+        return None
     extra_cur = steps[0]["extra0"] if steps else ()
-    cnt["extra_state_solver_runs"] = int(len(extra_cur) > 0)
-    ulp = (1.2e-7 if dtype == torch.float32 else 2.3e-16) * max(1.0, abs(t0) + T)
-    t_start, t_end = float(ts[0]), float(ts[-1])
+    cnt["extra_state_solver_runs"] = max(cnt.get("extra_state_solver_runs", 0), int(len(extra_cur) > 0))
+    ulp = (1.2e-7 if dtype == torch.float32 else 2.3e-16) * max(1.0, scale)
     accepted = []  # (t0, t1, y0, y1)
     cur = t_start
-    prev_len = None
     step_size = float(dt)
     for i in range(ntr):
         full, h1, h2 = steps[3 * i:3 * i + 3]
@@ -297,6 +220,129 @@ def run_case(case):
                                  "detail": f"trial {i}: length {length!r}, next step size {step_after!r} {ctx}"})
                     break
         step_size = step_after
+    return accepted
+
+
+def run_case(case):
+    import torchsde
+    import warnings
+    rng = random.Random(case["rseed"])
+    viol, cnt, mx = [], {}, {}
+    st, method, nt = rng.choice(SOLVERS)
+    dtype = torch.float32 if rng.random() < 0.2 else torch.float64
+    d, B = rng.choice([1, 2, 3]), rng.choice([1, 2, 4])
+    t0 = rng.choice([0.0, 0.0, -1.0, 2.0])
+    injected = case["kind"] == "injected"
+    if injected:
+        T = rng.choice([0.5, 1.0])
+        k = rng.choice([1.0, 5.0])
+        dt_min = T / rng.choice([40, 150, 400])
+        dt = rng.choice([dt_min, 0.05, 0.2, T])
+        dt = max(dt, dt_min)
+        rtol = atol = 1e-3
+        script_name = rng.choice(["always_reject", "alternate", "heavy_tail", "tiny", "borderline", "reject_bursts"])
+        script = _script(script_name, rng)
+    else:
+        T = rng.choice([0.3, 1.0, 2.0])
+        k = rng.choice([1.0, 10.0, 100.0, 1000.0, 5000.0])
+        dt_min = max(rng.choice([1e-5, 1e-4, 1e-3]), T / 2000)  # bounds the run at ~6000 trials
+        k = min(k, 0.5 / dt_min)  # explicit steps at dt_min stay stable
+        if dtype == torch.float32:
+            dt_min = max(dt_min, 1e-3)
+            k = min(k, 300.0)
+        dt = rng.choice([0.01, 0.1, 0.5])
+        rtol = rng.choice([1e-2, 1e-3, 1e-5, 1e-8])
+        atol = rng.choice([1e-2, 1e-4, 1e-6, 1e-8])
+        if dtype == torch.float32:
+            rtol, atol = max(rtol, 1e-4), max(atol, 1e-5)
+        if dt_min < 1e-4:  # keep the run short: looser tolerances with the tiniest dt_min
+            rtol, atol = max(rtol, 1e-4), max(atol, 1e-5)
+        script_name, script = "natural", None
+    sigma = rng.choice([0.1, 0.5])
+    sde = Stiff(nt, st, d, k, sigma)
+    nout = rng.choice([2, 3, 6])
+    tsl = [t0] + sorted(t0 + T * rng.uniform(0.05, 0.95) for _ in range(nout - 2)) + [t0 + T]
+    ts = torch.tensor(tsl, dtype=dtype)
+    y0 = torch.randn(B, d, dtype=dtype, generator=torch.Generator().manual_seed(case["rseed"]))
+    bm = torchsde.BrownianInterval(t0=float(ts[0]), t1=float(ts[-1]), size=(B, sde.m), dtype=dtype,
+                                   entropy=rng.randrange(1, 10 ** 9), levy_area_approximation=zoo.levy_for(method))
+    rec = probes.RecordingBrownian(bm)
+    pr = probes.SolverProbe(keep_states=True, error_script=script)
+    # entry point: the same contract holds for the forward solve of sdeint_adjoint (with ITS rtol/atol, which are made
+    # different from the adjoint tolerances) and, with adjoint_adaptive=True, for every reverse-time solve of the
+    # backward pass (one solver.integrate call per output interval, controlled by adjoint_rtol/adjoint_atol)
+    entry = rng.choice(["sdeint", "sdeint", "sdeint_adjoint"])
+    adj_rtol, adj_atol = rtol * rng.choice([0.1, 10.0, 100.0]), atol * rng.choice([0.1, 10.0, 100.0])
+    adj_adaptive = entry == "sdeint_adjoint" and not injected and T / dt_min <= 2000 and rng.random() < 0.6
+    ctx = (f"{st}/{method}/{nt} k={k} dt={dt} dt_min={dt_min} rtol={rtol} atol={atol} dtype={dtype} ts={tsl} "
+           f"schedule={script_name} entry={entry}"
+           + (f" adjoint_rtol={adj_rtol} adjoint_atol={adj_atol} adjoint_adaptive={adj_adaptive}"
+              if entry == "sdeint_adjoint" else ""))
+    bound = int(3 * (T / dt_min) + 100)
+    limit = {"n": 0}
+    orig_script = pr.error_script
+
+    def counting(i, real):
+        limit["n"] = i + 1
+        first = pr.integrate_calls[-1]["errors"][0] if pr.integrate_calls else 0  # trials of the current integrate call
+        if i + 1 - first > bound:
+            raise probes.OpBudgetExceeded(f"more than {bound} trials")
+        return real if orig_script is None else orig_script(i, real)
+    pr.error_script = counting
+    blown = False
+    # grad mode: long runs are made under no_grad (with autograd enabled the solvers that differentiate the diffusion
+    # keep a graph through all steps, which makes thousands of steps quadratically slow - not what is monitored here)
+    use_grad = injected and dt_min >= T / 150 and rng.random() < 0.5
+    cnt["grad_enabled_runs"] = int(use_grad)
+    back = None
+    try:
+        with warnings.catch_warnings(record=True) as wlist, pr.installed():
+            warnings.simplefilter("always")
+            if entry == "sdeint":
+                with torch.set_grad_enabled(use_grad):
+                    ys = torchsde.sdeint(sde, y0, ts, bm=rec, method=method, dt=dt, adaptive=True, rtol=rtol,
+                                         atol=atol, dt_min=dt_min)
+            else:
+                cnt["adjoint_entry_runs"] = 1
+                y0 = y0.requires_grad_(True)
+                ys = torchsde.sdeint_adjoint(sde, y0, ts, bm=rec, method=method, dt=dt, adaptive=True, rtol=rtol,
+                                             atol=atol, dt_min=dt_min, adjoint_rtol=adj_rtol, adjoint_atol=adj_atol,
+                                             adjoint_adaptive=adj_adaptive)
+                n_fwd = (len(pr.steps), len(pr.errors), len(pr.updates), len(rec.log), len(pr.integrate_calls))
+                if adj_adaptive:
+                    wl = torch.randn(ys.shape, dtype=dtype, generator=torch.Generator().manual_seed(case["rseed"] + 1))
+                    try:
+                        (ys * wl).sum().backward()
+                        back = n_fwd
+                    except AssertionError as e:
+                        if "nans in the error estimate" not in str(e):
+                            raise
+                        cnt["blown_up_backward_runs"] = 1
+                ys = ys.detach()
+                y0 = y0.detach()
+    except probes.OpBudgetExceeded as e:
+        viol.append({"mechanism": "adaptive_does_not_terminate", "detail": f"{e} {ctx}"})
+        return {"violations": viol, "counters": {"trials": limit["n"]}}
+    except AssertionError as e:
+        if "nans in the error estimate" in str(e):
+            blown = True  # unstable explicit step: outside the property
+        else:
+            raise
+    if blown:
+        return {"violations": [], "counters": {"blown_up_runs": 1}, "nontrivial": False}
+
+    steps, errors, updates = pr.steps, pr.errors, pr.updates
+    n_log = len(rec.log)
+    if entry == "sdeint_adjoint":
+        steps, errors, updates, n_log = steps[:n_fwd[0]], errors[:n_fwd[1]], updates[:n_fwd[2]], n_fwd[3]
+    ntr = len(errors)
+    # (observation, not a verdict: the property does not prescribe the autograd mode of the controller)
+    cnt["error_control_calls_with_grad_enabled"] = pr.grad_enabled_in_error
+    t_start, t_end = float(ts[0]), float(ts[-1])
+    accepted = check_trace(steps, errors, updates, t_start, t_end, dt, dt_min, rtol, atol, dtype, ctx, viol, cnt, mx,
+                           abs(t0) + T)
+    if accepted is None:
+        return {"violations": viol, "counters": cnt}
     if not viol:
         # returned values: two-half-step values of accepted trials, linearly interpolated
         tol = 2e-5 if dtype == torch.float32 else 1e-12
@@ -319,8 +365,34 @@ def run_case(case):
                              "detail": f"output {j} (t={t}) differs by {e:.3e} from the accepted two-half-step values {ctx}"})
                 break
         # Brownian queries are exactly the trial triples
-        if len(rec.log) != 3 * ntr:
-            viol.append({"mechanism": "unexpected_brownian_queries", "detail": f"{len(rec.log)} queries for {ntr} trials {ctx}"})
+        if n_log != 3 * ntr:
+            viol.append({"mechanism": "unexpected_brownian_queries", "detail": f"{n_log} queries for {ntr} trials {ctx}"})
+    if back is not None and not viol:
+        # the backward pass: one adaptive reverse-time solve per output interval, [-ts[i], -ts[i-1]] for i = n-1 .. 1,
+        # each starting again from the user's dt and governed by the ADJOINT tolerances
+        calls = pr.integrate_calls[back[4]:]
+        want = [(float(-ts[i]), float(-ts[i - 1])) for i in range(len(tsl) - 1, 0, -1)]
+        got = [(float(c["ts"][0]), float(c["ts"][-1])) for c in calls]
+        if got != want:
+            viol.append({"mechanism": "backward_pass_intervals_differ_from_output_intervals",
+                         "detail": f"reverse-time solves over {got}, expected {want} {ctx}"})
+        else:
+            bc, bmx = {}, {}
+            for c in calls:
+                cs = pr.steps[c["steps"][0]:c["steps"][1]]
+                ce = pr.errors[c["errors"][0]:c["errors"][1]]
+                cu = pr.updates[c["updates"][0]:c["updates"][1]]
+                nv = len(viol)
+                check_trace(cs, ce, cu, float(c["ts"][0]), float(c["ts"][-1]), dt, dt_min, adj_rtol, adj_atol, dtype,
+                            ctx + " [backward pass]", viol, bc, bmx, abs(t0) + T)
+                for v in viol[nv:]:
+                    v["mechanism"] = "backward:" + v["mechanism"]
+                if len(viol) > nv:
+                    break
+            cnt["backward_adaptive_solves"] = len(calls)
+            cnt["backward_trials"] = bc.get("trials", 0)
+            cnt["backward_rejected"] = bc.get("rejected", 0)
+            mx["backward_error_recompute_rel"] = bmx.get("error_recompute_rel", 0.0)
     cnt["injected_cases" if injected else "natural_cases"] = 1
     cnt["float32_cases"] = int(dtype == torch.float32)
     mx["trials_over_bound"] = ntr / bound
